@@ -71,7 +71,7 @@ def atoms():
     return out
 
 
-def expressions(maxw):
+def expressions(maxw, triples=False):
     out = [([], 0)]
     at = atoms()
     for a, wd in at:
@@ -80,6 +80,10 @@ def expressions(maxw):
     for (a, wa), (b, wb) in itertools.product(at, at):
         if wa + wb <= maxw:
             out.append(([a, b], wa + wb))
+    if triples:
+        for (a, wa), (b, wb), (c, wc) in itertools.product(at, at, at):
+            if wa + wb + wc <= maxw:
+                out.append(([a, b, c], wa + wb + wc))
     return out
 
 
@@ -240,8 +244,9 @@ def cases(tier):
                 for libstyle in ("header", "ansi"):
                     for order in ([0, 1, 2], [2, 1, 0]):
                         out.append(("arch", list(present), list(liborder), libstyle, order, "asc"))
-    for pw in (1, 2, 3):
-        for expr, wd in expressions(pw):
+    # thorough: port widths up to 5 and concatenations of three items
+    for pw in (1, 2, 3) if tier == "quick" else (1, 2, 3, 4, 5):
+        for expr, wd in expressions(pw, triples=(tier != "quick")):
             for positional in (False, True):
                 for target in ("before", "after", "celldefine", "undeclared"):
                     if target == "undeclared" and wd == 0:
@@ -257,7 +262,7 @@ def cases(tier):
 def run(tier, seed):
     cov = core.Coverage(
         "Engine B: Verilog texts rendered by an independent writer - a rich base design in every module order x "
-        "header/ANSI ports x comments, and every connection expression of the grammar up to the port width (1..3) x "
+        "header/ANSI ports x comments, and every connection expression of the grammar up to the port width (1..3; 1..5 with three-item concatenations in the thorough tier) x "
         "named/positional x declared before/after/`celldefine/never - are parsed by the real reader; the bit-level "
         "structure (cables, per-bit endpoints, instances with parameters/attributes, assigns, primitives, top) must "
         "equal the model; states = distinct texts")
